@@ -254,6 +254,9 @@ def explore(ctx):
                 {"name": "pa.oring.own", "unicodes": [], "width": Fr(500), "contours": [], "anchors": [("center", Fr(1), Fr(2))],
                  "components": [("pa.base", one + (Fr(0), Fr(0))), ("pa.ring", one + (Fr(250), Fr(100)))]}]
         names = [g["name"] for g in desc["glyphs"]]
+        # vertical advances on some glyphs (fonts with vertical metrics): the two advances are two vectors
+        for k, g in enumerate(desc["glyphs"]):
+            g["height"] = Fr([0, 1000, 880, 0][k % 4])
         lib = rng.choice(["ufoLib2", "defcon"])
         which = ["decompose", "decompose_transformed", "flatten", "transform", "propagate"][i % 5]
         kw, included = pick_include(rng, names)
@@ -352,6 +355,14 @@ def explore(ctx):
                 skipped = [n for n in names if n in included and (reach(n, set()) & tainted)]
                 if skipped:
                     ctx.klass("transform:included-above-excluded-composite(not guaranteed)", len(skipped))
+            # both advances, by the matrix: the horizontal advance is the vector (width, 0), the vertical one (0, height)
+            b0h, b1h = {g["name"]: g for g in before}, {g["name"]: g for g in after}
+            for n in incl_eff:
+                tolq = Fr(1, 10 ** 6) if case["options"].get("Slant") else 0
+                if abs(b1h[n]["width"] - m[0] * b0h[n]["width"]) > tolq or abs(b1h[n]["height"] - m[3] * b0h[n]["height"]) > tolq:
+                    ctx.spec_failure(dict(case, glyph=n), "advances of %r: (width %s, height %s) became (%s, %s); the matrix maps the horizontal advance to %s and the vertical one to %s" % (
+                        n, b0h[n]["width"], b0h[n]["height"], float(b1h[n]["width"]), float(b1h[n]["height"]), float(m[0] * b0h[n]["width"]), float(m[3] * b0h[n]["height"])))
+                    break
             if case["options"].get("Slant"):
                 # tan(angle) is irrational: the filter's float arithmetic is not the exact rational arithmetic of the
                 # Gallina model, so slanted cases are judged here against the same statement with a 1e-6 tolerance
